@@ -25,7 +25,8 @@ def main():
         if pid in NOT_APPLICABLE:
             na.append({"property_id": pid, "reason": NOT_APPLICABLE[pid]})
             continue
-        if not os.path.exists(path):
+        accepted = set(open(os.path.join(VERIF, "sa", "accepted.txt")).read().split())
+        if not os.path.exists(path) or pid not in accepted:
             na.append({"property_id": pid, "reason": "no check is registered for this property yet (static rules "
                        "planned in DESIGN.md section 5 are not built); not claimed."})
             continue
